@@ -507,7 +507,8 @@ Fixpoint ensure (o : opts) (parts : list bytes) (c : con) {struct parts} : optio
               match into_con n with
               | Some ((KDoc _ _ _) as ch) =>
                   let (e, ch') := ensure o rest ch in (e, con_put o c key (node_of_con ch'))
-              | _ => (Some EInvalid, c)
+              | _ => (None, c)   (* an existing value that is not a container: nothing to create; the
+                                    add that follows reports the unreachable path (fix 584e880) *)
               end
           end
       end
